@@ -285,6 +285,8 @@ impl LabelCatalog {
             }
         }
 
+        #[cfg(grafeo_verif)]
+        grafeo_common::verif::yield_point("catalog.label.after_fast_path");
         // Slow path: create new entry
         let mut name_to_id = self.name_to_id.write();
         let mut id_to_name = self.id_to_name.write();
@@ -345,6 +347,8 @@ impl PropertyCatalog {
             }
         }
 
+        #[cfg(grafeo_verif)]
+        grafeo_common::verif::yield_point("catalog.property_key.after_fast_path");
         // Slow path: create new entry
         let mut name_to_id = self.name_to_id.write();
         let mut id_to_name = self.id_to_name.write();
@@ -405,6 +409,8 @@ impl EdgeTypeCatalog {
             }
         }
 
+        #[cfg(grafeo_verif)]
+        grafeo_common::verif::yield_point("catalog.edge_type.after_fast_path");
         // Slow path: create new entry
         let mut name_to_id = self.name_to_id.write();
         let mut id_to_name = self.id_to_name.write();
